@@ -54,6 +54,10 @@ impl Topic {
             responder: send,
         };
         #[cfg(deltio_verif)]
+        if self.sender.capacity() == 0 {
+            crate::verif::probe("topic_mailbox_full_at_send");
+        }
+        #[cfg(deltio_verif)]
         crate::verif::point("topic.publish_messages.before_send").await;
         self.sender
             .send(request)
@@ -75,6 +79,10 @@ impl Topic {
             responder: send,
         };
         #[cfg(deltio_verif)]
+        if self.sender.capacity() == 0 {
+            crate::verif::probe("topic_mailbox_full_at_send");
+        }
+        #[cfg(deltio_verif)]
         crate::verif::point("topic.list_subscriptions.before_send").await;
         self.sender
             .send(request)
@@ -95,6 +103,10 @@ impl Topic {
             subscription,
             responder: send,
         };
+        #[cfg(deltio_verif)]
+        if self.sender.capacity() == 0 {
+            crate::verif::probe("topic_mailbox_full_at_send");
+        }
         #[cfg(deltio_verif)]
         crate::verif::point("topic.attach_subscription.before_send").await;
         self.sender
@@ -118,6 +130,10 @@ impl Topic {
             responder: send,
         };
         #[cfg(deltio_verif)]
+        if self.sender.capacity() == 0 {
+            crate::verif::probe("topic_mailbox_full_at_send");
+        }
+        #[cfg(deltio_verif)]
         crate::verif::point("topic.remove_subscription.before_send").await;
         self.sender
             .send(request)
@@ -132,6 +148,10 @@ impl Topic {
     pub async fn delete(&self) -> Result<(), DeleteError> {
         let (send, recv) = oneshot::channel();
         let request = TopicRequest::Delete { responder: send };
+        #[cfg(deltio_verif)]
+        if self.sender.capacity() == 0 {
+            crate::verif::probe("topic_mailbox_full_at_send");
+        }
         #[cfg(deltio_verif)]
         crate::verif::point("topic.delete.before_send").await;
         self.sender
